@@ -281,6 +281,51 @@ def spaces(tier, variant, seed):
                         ob.append((cfg, n, sorted({n, max(1, n - 1), max(1, (2 * n) // 3), max(1, n // 2)})))
         sp.append(Space("rt_other_vectors", ob, big_cases, big_one, "shipped vectors and single-threshold deviations around their own gcd thresholds"))
 
+    # ---- the largest regime (HGCD_REDUCE_THRESHOLD and above): certificate oracle g | a, g | b, a*s + b*t == g ----
+    def hg_cases(blk):
+        n, m, fam = blk
+        yield (n, m, fam)
+
+    def hg_one(case, R):
+        n, m, fam = case
+        set_cfg(BASECFG)
+        a = dense(n, 61)
+        b = dense(m, 62) | 1
+        t3 = m // 3
+        if fam == "ones_upper":
+            b |= al.ones(t3) << (64 * (m - t3 - 2))
+        elif fam == "ones_both":
+            b |= al.ones(t3) << (64 * (m - t3 - 2))
+            a |= al.ones(n // 3) << (64 * (n - n // 3 - 2))
+        elif fam == "zeros_upper":
+            b &= ~(al.ones(t3) << (64 * (m - t3 - 2)))
+        elif fam == "planted":
+            gpl = dense(n // 14, 63) | 1
+            a, b = (dense(n - n // 14, 64) | 1) * gpl, (dense(m - n // 14, 65) | 1) * gpl
+        z = [lib.Z() for _ in range(5)]
+        z[3].set(a)
+        z[4].set(b)
+        f_gcdext(z[0].p, z[1].p, z[2].p, z[3].p, z[4].p)
+        g, s_, t_ = z[0].get(), z[1].get(), z[2].get()
+        if g <= 0 or a % g or b % g or a * s_ + b * t_ != g:
+            R.fail("mpz_gcdext", "%d x %d limbs (%s): certificate g|a, g|b, a*s+b*t=g fails" % (n, m, fam))
+        elif not (2 * g * abs(s_) < b or b == 2 * g or g == b) or not (2 * g * abs(t_) < a or a == 2 * g):
+            R.fail("mpz_gcdext", "%d x %d limbs (%s): cofactor bounds violated" % (n, m, fam))
+        f_gcd = lib.fn("mpz_gcd", None, c_void_p, c_void_p, c_void_p)
+        f_gcd(z[1].p, z[3].p, z[4].p)
+        if z[1].get() != g:
+            R.fail("mpz_gcd", "%d x %d limbs (%s): differs from the certified gcd" % (n, m, fam))
+        if z[3].get() != a or z[4].get() != b:
+            R.fail("mpz_gcd", "input modified")
+        return (n, m, fam, g == 1)
+
+    if variant != "rt" and variant != "asan":
+        th_ = rt.parse_mparam(os.path.join(lib.META["dir"], "gmp-mparam.h")).get("hgcd_reduce_threshold", 6852)
+        big_ns = [(3 * th_ + 60, 3 * th_ + 50), (2 * th_ + 100, 2 * th_ + 90)] if quick else [(3 * th_ + 60, 3 * th_ + 50), (2 * th_ + 100, 2 * th_ + 90), (4 * th_, 3 * th_ + 7), (3 * th_ + 444, 2 * th_)]
+        if th_ <= 8000:
+            sp.append(Space("pin_hgcd_reduce_regime", [(n, m, fam) for (n, m) in big_ns for fam in ("dense", "ones_upper", "ones_both", "zeros_upper", "planted")], hg_cases, hg_one,
+                            "mpz_gcdext / mpz_gcd on operands of 2x and 3x HGCD_REDUCE_THRESHOLD limbs (dense, long all-ones / all-zero bands in the upper third, planted common factor): certificate oracle"))
+
     # ---- mpn level ----
     f_ngcd = lib.fn("mpn_gcd", c_long, P, P, c_long, P, c_long)
     f_ngcd1 = lib.fn("mpn_gcd_1", c_uint64, P, c_long, c_uint64)
